@@ -259,6 +259,37 @@ func solve(o *Obligation, dir string, timeout int, keep bool) *SolveResult {
 			defer os.Remove(file)
 		}
 	}
+	// nlqf variant: products abstracted AND quantified hypotheses dropped AND unrelated hypotheses dropped: a
+	// quantifier-free linear problem; decides record-frame style goals that drown in instantiations otherwise
+	if o.Goal != nil && hasNonlinear(all) && !hasQuant(o.Goal) {
+		termMu.Lock()
+		cache := map[*Term]*Term{}
+		var ah []*Term
+		for _, h := range o.Hyps {
+			if hasQuant(h) {
+				continue
+			}
+			ah = append(ah, abstractNL(h, cache))
+		}
+		ag := abstractNL(o.Goal, cache)
+		ah = coneOfInfluence(ah, ag)
+		termMu.Unlock()
+		aq, _ := BuildQuery(preludeFor(usedUFs(append(append([]*Term(nil), ah...), ag))), ah, ag, false)
+		file := base + ".nlqf.smt2"
+		os.WriteFile(file, []byte(aq), 0o644)
+		sp := solverSpec{name: "z3-new-5.1.0+nlqf", cmd: solvers[0].cmd}
+		go func() {
+			first, txt, d := runSolver(ctx, sp, file, timeout)
+			if first != "unsat" {
+				first = "unknown"
+			}
+			ch <- ans{first, txt, d, sp}
+		}()
+		pending++
+		if !keep {
+			defer os.Remove(file)
+		}
+	}
 	// flat variant: datatype constants expanded to scalars, reciprocals ackermannized, quantified hypotheses dropped
 	if o.Goal != nil && hasNonlinear(all) {
 		termMu.Lock()
